@@ -37,7 +37,10 @@ META = dict(
          "in the k-th empty() call, before the j-th is_alive() call of start()); events: worker death, SIGHUP, SIGINT, SIGTERM, "
          "file change; 9 % of the histories also script events INSIDE prepare_workers (worker exits at startup - also every "
          "worker -, signals, file changes, inside Process.start() / the poll / the Event.wait of a startup wait) and 7 % inside "
-         "the startup window of a replacement; 4 % of the deaths are polled at once (DieS). Non-trivial iff some tick carries >= 2 events or a death is followed by its reload in a later tick; "
+         "the startup window of a replacement; 4 % of the deaths are polled at once (DieS); 45 % build the manager from a varied "
+         "configuration (reload on / off, observer None / recording stand-in with the real FileWatcher scheduled and file changes "
+         "dispatched through it, reload extra importable / missing, no_gitignore, a .gitignore in the working directory, further "
+         "WorkerArgs fields, WorkerArgs built directly / by from_cli). Non-trivial iff some tick carries >= 2 events or a death is followed by its reload in a later tick; "
          "distinct by the whole case. Thorough: exhaustive sleep-event histories (workers 1,2: depth 4; 3: depth 3; "
          "max_fails in {-1,0,1,2,3}), single mid-tick injections (depth 2,2,1), every combination of startup exits inside prepare_workers "
          "(depth 3,2,1) and 50000 random long histories.",
@@ -45,7 +48,10 @@ META = dict(
                   "process / queue / os.kill / signal / sleep fakes in harness/drivers/pm_driver.py (multiprocessing.Process "
                   "life cycle new/live/zombie/reaped, POSIX kill on a reaped pid, synchronous FIFO queue with multiprocessing.Queue's "
                   "maxsize semantics, current_process/parent_process/active_children; any other multiprocessing name held by "
-                  "the module is a stub that fails closed)"],
+                  "the module is a stub that fails closed)",
+                  "stand-ins for the third-party packages watchdog (event classes) and gitignore-parser (parse_gitignore), which are "
+                  "not installed here, so that the real taskiq.cli.watcher.FileWatcher can be scheduled and dispatched to; a "
+                  "recording stand-in for watchdog's Observer"],
     assumptions=["join() returns (the worker dies on SIGTERM)",
                  "queue.put() is visible to the next empty()/get() (no feeder-thread latency)",
                  "asynchronous events (signals, watchdog callback, worker deaths) happen at the fakes' delivery points: "
